@@ -431,7 +431,7 @@ def run(chk, tier):
             and sig[c["op"]]["args"][0] in ("SInt", "BInt", "Bool")
             and c["op"] not in ("FormatSInt", "FormatBInt")]
     if not thorough:
-        vsel = vsel[::2]
+        vsel = vsel[chk.seed % 4::4]
     vcases = [cases[i] for i in vsel]
     t0 = time.time()
     vobs, vcrashes, _, _ = run_cases(build, vcases, sig, work, "v", False, 0, modes=("q2v",), variable_first=True,
